@@ -384,6 +384,21 @@ func oneCharNames(c *Ctx, f *core.Func, got map[rune]bool) {
 			}
 			return true
 		}
+		// name == "@": a comparison of a string with a one-character constant
+		if be, ok := n.(*ast.BinaryExpr); ok && be.Op == token.EQL {
+			for _, side := range []ast.Expr{be.X, be.Y} {
+				if k, isC := constStr(g.Info(), side); isC && len(k) == 1 {
+					other := be.X
+					if side == be.X {
+						other = be.Y
+					}
+					if tv, has := g.Info().Types[other]; has && tv.Value == nil {
+						got[rune(k[0])] = true
+					}
+				}
+			}
+			return true
+		}
 		call, ok := n.(*ast.CallExpr)
 		if !ok || len(call.Args) != 2 {
 			return true
